@@ -13,6 +13,8 @@ F3 documented result   cstl_map_insert returns -1 on the failing path.
 F5 no leak of a half-built block   on every path to a return, every block allocated on that path was
         committed into memory, returned, or freed (e.g. the shared pointer's bookkeeping block when the
         managed block could not be allocated).
+F7 no access through the failed result   on every path on which an allocation is known to have failed, no load or
+        store goes through its NULL result (a helper that stopped accepting NULL, called on the failure path).
 NOT decided: "nothing leaked over a whole script", behaviour under repeated failures across calls.
 """
 from .. import typestate
@@ -40,6 +42,7 @@ def run(m, rep, tier):
     f2 = rep.rule('F2', 'after a failed allocation nothing is stored into the container before returning', floor=8)
     f3 = rep.rule('F3', 'documented failure code is returned on the failing path', floor=1)
     f5 = rep.rule('F5', 'a block allocated on a path is committed, returned or freed before the return', floor=8)
+    f7 = rep.rule('F7', 'on a path where an allocation failed nothing is read or written through its NULL result', floor=8)
     hdrs = ('vector.h', 'hash.h', 'map.h', 'memory.h', 'array.h', '_string.h', 'rbtree.h', 'bintree.h', 'heap.h', 'dlist.h', 'slist.h')
     ents = header_functions(m, hdrs)
     n_alloc_entries = 0
@@ -51,16 +54,17 @@ def run(m, rep, tier):
         if not acs:
             continue
         n_alloc_entries += 1
-        check_failure_paths(m, f, acs, f2, f3, f5)
+        check_failure_paths(m, f, acs, f2, f3, f5, f7)
     rep.extra['allocating_entry_points'] = n_alloc_entries
     f6 = rep.rule('F6', 'hash resize: nothing of the table changes before the bucket allocation is known to have succeeded', floor=1)
-    pf = m.pfn('cstl_hash_resize')
-    if pf is None:
+    from ..hashmodel import focus_hash
+    # view with the role-less private helpers inlined (the capacity setter, which calls realloc, stays a function)
+    fmod = focus_hash(m) if 'hash' in m.plain else None
+    pf = fmod.fn('cstl_hash_resize') if fmod is not None else None
+    if pf is None or pf.decl:
         f6.undecided('cstl_hash_resize', 'not in the model')
     else:
-        from ..hashmodel import Roles, fld as hfld
-        roles = Roles(m)
-        setters = {g.name for g in m.plain['hash'].defined() if alloc_calls(g)} if 'hash' in m.plain else set()
+        setters = {g.name for g in fmod.defined() if alloc_calls(g)}
         reqs = [c for c in pf.all_insts() if c.op == 'call' and c.callee in setters]
         early = []
         for s in pf.all_insts():
@@ -101,7 +105,8 @@ def relevant_values(f, alias_of):
             elif i.op in ('bitcast', 'zext', 'trunc', 'ptrtoint', 'inttoptr'):
                 add = isinstance(i.o[0], str) and i.o[0] in rel
             elif i.op == 'phi':
-                add = all((isinstance(o, str) and (o in rel or const_int(o) is not None or o in ('null', 'undef'))) for o in i.o)
+                add = all((isinstance(o, str) and (o in rel or const_int(o) is not None or o in ('null', 'undef'))) for o in i.o) \
+                    or any(isinstance(o, str) and o in alias_of for o in i.o)     # "the new block or the one found" merged for the tail
             elif i.op == 'icmp':
                 add = any(isinstance(o, str) and o in rel for o in i.o)
             if add:
@@ -110,7 +115,7 @@ def relevant_values(f, alias_of):
     return rel
 
 
-def check_failure_paths(m, f, acs, f2, f3, f5):
+def check_failure_paths(m, f, acs, f2, f3, f5, f7):
     alias_of = {}
     for c in acs:
         for a in aliases(f, c.ref):
@@ -131,10 +136,28 @@ def check_failure_paths(m, f, acs, f2, f3, f5):
                     changed = True
     bad2 = set()
     bad5 = set()
+    bad7 = set()
+
+    def through_failed(ins, execd, ps):
+        # a load / store whose address is computed from an allocation result that is NULL on this path
+        if ins.op not in ('load', 'store'):
+            return
+        ar = ins.o[0] if ins.op == 'load' else ins.o[1]
+        if not isinstance(ar, str):
+            return
+        root = resolve_addr(f, ar).root
+        if not isinstance(root, str):
+            return
+        rv = typestate.value_of(f, ps, root)
+        r = alias_of.get(rv) if isinstance(rv, str) else None
+        if r is not None and r in execd and ps.knows(('eq', r, 'null')) is True:
+            bad7.add('memory is %s through the result of the allocation at %s at %s on a path where that allocation failed (NULL)'
+                     % ('read' if ins.op == 'load' else 'written', f.get(r).loc(), ins.loc()))
 
     # automaton: (allocs executed, allocs escaped/freed)
     def transfer(ins, st, ps):
         execd, gone = st
+        through_failed(ins, execd, ps)
         if ins.op == 'call':
             if ins.x.get('noreturn'):
                 return None
@@ -196,6 +219,10 @@ def check_failure_paths(m, f, acs, f2, f3, f5):
         f2.violation(f.name, '; '.join(sorted(bad2)[:3]), floc(m, f), {})
     else:
         f2.ok(f.name, '%d allocation site(s); %d exit state(s); no store into the container after a known failure' % (len(acs), len(res.exits)), floc(m, f))
+    if bad7:
+        f7.violation(f.name, '; '.join(sorted(bad7)[:3]), floc(m, f), {})
+    else:
+        f7.ok(f.name, 'no access through a NULL allocation result on any of %d exit state(s)' % len(res.exits), floc(m, f))
     if bad5:
         f5.violation(f.name, '; '.join(sorted(bad5)[:3]), floc(m, f), {})
     else:
